@@ -106,6 +106,9 @@ class Session:
             self.impl.srv.connected = bool(ev[1]); self.model.ask('conn %d' % (1 if ev[1] else 0))
         elif kind == 'cmd':
             self.cmd(ev, ev[1], ev[2])
+        elif kind == 'cmdq':
+            # asyncio front-end: the request is written but the event loop does not get a turn before the next event
+            self.cmd(ev, ev[1], ev[2], settle=False)
         elif kind in ('wake', 'timeout'):
             self.resume(ev, ev[1], kind == 'wake')
         elif kind == 'aadv':
@@ -126,13 +129,13 @@ class Session:
             raise ValueError(ev)
 
     # ------------------------------------------------------------------
-    def cmd(self, ev, c, fields):
+    def cmd(self, ev, c, fields, settle=True):
         self.stats['cmds'] += 1
         # b'@PAYLOAD' / b'@PAYLOAD1' stand for the last / last-but-one DUMP reply of this session (explicit scenarios)
         if any(isinstance(f, bytes) and f.startswith(b'@PAYLOAD') for f in fields):
             fields = [(self.payloads[-1 - int(f[8:] or 0)] if len(self.payloads) > int(f[8:] or 0) else b'no-payload-yet')
                       if isinstance(f, bytes) and f.startswith(b'@PAYLOAD') else f for f in fields]
-            ev = ('cmd', c, fields)
+            ev = (ev[0], c, fields)
         name = Cn.name_of(fields)
         before = self.impl.snapshot_struct() if self.observers else None
         if self.sched:
@@ -146,6 +149,7 @@ class Session:
             line = self.model.cmd(c, model_fields(fields), clocks, picks, park=2)
             if was_paused:
                 self.pending[c] = self.pending.get(c, 0) + 1
+                self.__dict__.setdefault('pending_cmds', {}).setdefault(c, []).append(list(fields))
             elif self.impl.socks[c]._paused:
                 if not hasattr(self.impl, 'parked_kind'):
                     self.impl.parked_kind = {}
@@ -160,7 +164,8 @@ class Session:
         if self.aio:
             if self.compare_state:
                 self.compare_snap(ev)
-            self.after_async(ev)
+            if settle:
+                self.after_async(ev)
             return
         if self.compare_state:
             self.compare_snap(ev)
@@ -183,6 +188,8 @@ class Session:
         """run the event loop to quiescence and replay on the model what the re-try tasks did"""
         paused_before = [c for c, s in sorted(self.impl.socks.items()) if s._paused]
         out_i, clocks = self.impl.settle()
+        if getattr(self.impl, 'hung', None):
+            raise Divergence(self.index, ev, 'hang', {'event loop': self.impl.hung}, 'the model completes every event')
         self.last_out = out_i
         with_pending = [c for c in paused_before if self.pending.get(c)]
         for c in paused_before:
@@ -208,6 +215,22 @@ class Session:
             line = self.model.ask('%s %d %s' % (kind, c, Mo.fmt_clocks(cl)))
             self.pending.pop(c, None)
             self.compare_outputs(ev, c, None, {c: mine}, None, line)
+            # a blocking pop that was pipelined behind this one may be the parked command now: its own timeout counts from here
+            queued = self.__dict__.setdefault('pending_cmds', {}).pop(c, [])
+            self.park_info.pop(c, None)
+            if self.impl.socks[c]._paused:
+                for i, f in enumerate(queued):
+                    if Cn.name_of(f) in ('blpop', 'brpop', 'brpoplpush'):
+                        try:
+                            self.park_info[c] = (self.impl.loop.vtime, float(f[-1]))
+                        except ValueError:
+                            pass
+                        self.impl.parked_kind[c] = Cn.name_of(f)
+                        rest = queued[i + 1:]
+                        if rest:
+                            self.pending_cmds[c] = rest
+                            self.pending[c] = len(rest)
+                        break
         extra = {c: v for c, v in out_i.items() if c not in paused_before}
         if extra:
             raise Divergence(self.index, ev, 'async-unexpected-output', _show({k: [Cn.from_impl(x) for x in v] for k, v in extra.items()}, None), '')
